@@ -63,6 +63,15 @@ ROLES = {
     '_to_slice': ('elfi.store:ArrayStore', 'method',
                   lambda f: any(isinstance(r.value, ast.Call) and
                                 getattr(r.value.func, 'id', None) == 'slice' for r in _returns(f))),
+    '_init_from_file_header': ('elfi.store:NpyArray', 'method',
+                               lambda f: _has(f, 'read_array_header_2_0')),
+    '_prepare_header_data': ('elfi.store:NpyArray', 'method',
+                             lambda f: _has(f, 'write_array_header_2_0') and
+                             _has(f, '_header_bytes_to_write = ') and f.params == ['self']),
+    '_write_header_data': ('elfi.store:NpyArray', 'method',
+                           lambda f: f.params == ['self'] and _has(f, '_header_bytes_to_write')
+                           and not _has(f, 'write_array_header_2_0') and
+                           _has(f, 'self.fs.write(') and f.name not in ('flush', 'close')),
     '_get_store_for': ('elfi.store:OutputPool', 'method',
                        lambda f: f.params[1:2] == ['node'] and _has(f, 'self.stores[node] is None')),
     '_evaluate_pdf': ('elfi.model.extensions:ModelPrior', 'method',
